@@ -366,3 +366,134 @@ Proof.
 Qed.
 
 End CI.
+
+(* ---- the tuple strategy: unstructure_attrs_astuple then structure_attrs_fromtuple ---- *)
+Section CT.
+Variable V : Type.
+Variable K : N -> V -> result V.
+Notation field := (field V).
+Variable fs : list field.
+Hypothesis Nd_alias : NoDup (map (@f_alias V) fs).
+Hypothesis Nd_name : NoDup (map (@f_name V) fs).
+Hypothesis A_init : forall f, In f fs -> f_init f = true.
+Hypothesis A_conv : forall f, In f fs -> f_conv f = false.
+Variable i : inst V.
+Hypothesis I_keys : map fst i = map (@f_name V) fs.
+Variable d0 : V.
+Notation av := (aval V d0 i).
+Variable hs_u hs_s : N -> V -> result V.
+Variable hu : N -> V -> V.
+Hypothesis H_hu : forall f, In f fs -> hs_u (f_name f) (av f) = Ok (hu (f_name f) (av f)).
+Hypothesis H_inv : forall f, In f fs -> hs_s (f_name f) (hu (f_name f) (av f)) = Ok (av f).
+
+Definition T : list V := map (fun f => hu (f_name f) (av f)) fs.
+
+Lemma vals_ok_t f : In f fs -> assoc i (f_name f) = Some (av f).
+Proof.
+  intros Hf. unfold aval. destruct (assoc i (f_name f)) eqn:E; [reflexivity|]. exfalso.
+  assert (X : In (f_name f) (map fst i)) by (rewrite I_keys; now apply in_map).
+  clear -E X. induction i as [|[n v] l IH]; cbn in *; [contradiction|]. destruct (N.eqb n (f_name f)) eqn:En; [discriminate|].
+  destruct X as [X|X]; [subst; rewrite N.eqb_refl in En; discriminate | auto].
+Qed.
+
+(* the interpretive tuple unstructure hook: every attribute's handled value, in attribute order *)
+Theorem un_interp_tuple_all : un_interp_tuple V hs_u fs i = Ok T.
+Proof.
+  unfold T. assert (Hsub : forall f, In f fs -> In f fs) by auto. revert Hsub. generalize fs at 1 3 4 as l.
+  induction l as [|f l IH]; intros Hsub; cbn [un_interp_tuple map]; [reflexivity|].
+  unfold getattr. rewrite (vals_ok_t f) by (apply Hsub; now left). cbn [bind]. rewrite (H_hu f) by (apply Hsub; now left). cbn [bind].
+  rewrite IH by (intros g Hg; apply Hsub; now right). reflexivity.
+Qed.
+
+Definition posf (l : list field) : list field := filter (fun f => negb (f_kw_only f)) l.
+Definition kwf (l : list field) : list field := filter (@f_kw_only V) l.
+Definition bnd (l : list field) : list (N * V) := map (fun f => (f_alias f, av f)) l.
+
+Lemma zip_split_rt l : (forall f, In f l -> In f fs) ->
+  zip_split V hs_s true l (map (fun f => hu (f_name f) (av f)) l) = Ok (map av (posf l), bnd (kwf l)).
+Proof.
+  induction l as [|f l IH]; intros Hs; cbn [zip_split map]; [reflexivity|].
+  rewrite (A_init f) by (apply Hs; now left). cbn [negb andb].
+  rewrite (H_inv f) by (apply Hs; now left). cbn [bind].
+  rewrite IH by (intros g Hg; apply Hs; now right). cbn [bind fst snd].
+  unfold posf, kwf, bnd. cbn [filter]. destruct (f_kw_only f); cbn [negb map]; reflexivity.
+Qed.
+
+Lemma bind_pos_all ps : bind_pos V ps (map av ps) = Ok (bnd ps).
+Proof. induction ps as [|p ps IH]; cbn [bind_pos map bnd]; [reflexivity|]. rewrite IH. reflexivity. Qed.
+
+Lemma bind_kw_all ps : forall l b,
+  (forall f, In f l -> In f ps) -> NoDup (map (@f_alias V) l) -> (forall f, In f l -> ~ In (f_alias f) (map fst b)) ->
+  bind_kw V ps b (bnd l) = Ok (b ++ bnd l).
+Proof.
+  induction l as [|f l IH]; intros b Hs Hnd Hfr; cbn [bnd map bind_kw]; [now rewrite app_nil_r|].
+  inversion Hnd as [|? ? Hn Hr]; subst.
+  assert (E : existsb (fun p => N.eqb (f_alias p) (f_alias f)) ps = true).
+  { apply existsb_exists. exists f. split; [apply Hs; now left | apply N.eqb_refl]. }
+  rewrite E. rewrite (assoc_none_notin b (f_alias f)) by (apply Hfr; now left).
+  fold (bnd l). rewrite IH.
+  - now rewrite <- app_assoc.
+  - intros g Hg. apply Hs. now right.
+  - exact Hr.
+  - intros g Hg. rewrite map_app, in_app_iff. cbn. intros [X|[X|[]]].
+    + revert X. apply Hfr. now right.
+    + apply Hn. rewrite X. now apply in_map.
+Qed.
+
+Lemma assoc_bnd l f : (forall g, In g l -> In g fs) -> In f l -> assoc (bnd l) (f_alias f) = Some (av f).
+Proof.
+  induction l as [|g l IH]; intros Hs Hf; [contradiction|]. cbn [bnd map assoc].
+  destruct (N.eqb (f_alias g) (f_alias f)) eqn:E.
+  - apply N.eqb_eq in E. assert (g = f) by (eapply (nodup_in_eq (@f_alias V) fs); [exact Nd_alias | apply Hs; now left | apply Hs; exact Hf | exact E]).
+    now subst.
+  - destruct Hf as [Hf|Hf]; [subst; rewrite N.eqb_refl in E; discriminate|]. apply IH; [|exact Hf]. intros h Hh. apply Hs. now right.
+Qed.
+
+Lemma fill_all b l : (forall f, In f l -> In f fs) -> (forall f, In f l -> assoc b (f_alias f) = Some (av f)) ->
+  fill V K l b = Ok (map (fun f => (f_name f, av f)) l).
+Proof.
+  induction l as [|f l IH]; intros Hs Hb; cbn [fill map]; [reflexivity|].
+  rewrite (A_init f) by (apply Hs; now left). rewrite (Hb f) by now left.
+  unfold apply_conv. rewrite (A_conv f) by (apply Hs; now left). cbn [bind].
+  rewrite IH; [reflexivity | intros g Hg; apply Hs; now right | intros g Hg; apply Hb; now right].
+Qed.
+
+Lemma i_shape_t : i = map (fun f => (f_name f, av f)) fs.
+Proof.
+  clear -I_keys Nd_name. unfold aval.
+  revert i I_keys. induction fs as [|f l IH]; intros [|[n v] i] Hk; cbn in Hk; try discriminate; [reflexivity|].
+  inversion Hk as [[Hn Hr]]. subst n. inversion Nd_name as [|? ? Hnn Hrr]; subst. cbn [map assoc]. rewrite N.eqb_refl. f_equal.
+  rewrite (IH Hrr i Hr) at 1. apply map_ext_in. intros g Hg. f_equal.
+  destruct (N.eqb (f_name f) (f_name g)) eqn:E; [|reflexivity]. apply N.eqb_eq in E. exfalso. apply Hnn. rewrite E. now apply in_map.
+Qed.
+
+Lemma in_pos_or_kw f : In f fs -> In f (posf fs ++ kwf fs).
+Proof.
+  intros Hf. apply in_app_iff. unfold posf, kwf. destruct (f_kw_only f) eqn:E.
+  - right. apply filter_In. auto.
+  - left. apply filter_In. split; [exact Hf | now rewrite E].
+Qed.
+
+(* C01, class level, tuple strategy: structuring the tuple the unstructure hook produced, kw_only attributes
+   passed by keyword, with handlers that undo the unstructure handlers, gives back the instance itself *)
+Theorem class_rt_tuple (o : pobj V) : o_iter o = Ok T -> tpl_interp_tuple V K hs_s true fs o = Ok i.
+Proof.
+  intros Ho. unfold tpl_interp_tuple. rewrite Ho. cbn [bind]. unfold T.
+  rewrite (zip_split_rt fs (fun _ X => X)). cbn [bind fst snd]. unfold instantiate.
+  assert (Hp : params V fs = fs) by (unfold params; clear -A_init; induction fs as [|f l IH]; cbn; [reflexivity|];
+                                     rewrite (A_init f) by (now left); f_equal; apply IH; intros g Hg; apply A_init; now right).
+  unfold pos_params. rewrite Hp. fold (posf fs). rewrite bind_pos_all. cbn [bind].
+  rewrite (bind_kw_all fs (kwf fs) (bnd (posf fs))).
+  - cbn [bind]. rewrite (fill_all (bnd (posf fs) ++ bnd (kwf fs)) fs (fun _ X => X)).
+    + now rewrite <- i_shape_t.
+    + intros f Hf. unfold bnd. rewrite <- map_app. fold (bnd (posf fs ++ kwf fs)). apply assoc_bnd; [|now apply in_pos_or_kw].
+      intros g Hg. apply in_app_iff in Hg. unfold posf, kwf in Hg. destruct Hg as [Hg|Hg]; apply filter_In in Hg; tauto.
+  - intros f Hf. unfold kwf in Hf. apply filter_In in Hf. tauto.
+  - unfold kwf. clear -Nd_alias. induction fs as [|f l IH]; cbn; [constructor|]. inversion Nd_alias as [|? ? Hn Hr]; subst.
+    destruct (f_kw_only f); [|now apply IH]. cbn. constructor; [|now apply IH]. intros X. apply Hn.
+    apply in_map_iff in X. destruct X as (g & Eg & Hg). apply filter_In in Hg. rewrite <- Eg. apply in_map. tauto.
+  - intros f Hf X. unfold bnd in X. rewrite map_map in X. cbn in X. apply in_map_iff in X. destruct X as (g & Eg & Hg).
+    unfold kwf in Hf. unfold posf in Hg. apply filter_In in Hf. apply filter_In in Hg. destruct Hf as [Hf Hk], Hg as [Hg Hnk].
+    assert (g = f) by (eapply (nodup_in_eq (@f_alias V) fs); eauto). subst. rewrite Hk in Hnk. discriminate.
+Qed.
+End CT.
